@@ -517,9 +517,46 @@ def _field_relations(run, P, rule="C10.cycle"):
            construct=f"StatementBase.__init__: {n} raise statement(s) examined", why="scan summary")
 
 
+def _cycle_by_components(run, P, f):
+    """The pass built on strongly connected components: a component of one statement is a
+    cycle too if the statement depends on itself."""
+    n = 0
+    for x in ast.walk(f.node):
+        tests = []
+        if isinstance(x, ast.If):
+            tests = [x.test]
+        elif isinstance(x, ast.comprehension):
+            tests = list(x.ifs)
+        for t in tests:
+            sizes = [c_ for c_ in ast.walk(t) if isinstance(c_, ast.Compare) and isinstance(c_.left, ast.Call)
+                     and dotted(c_.left.func) == "len" and len(c_.ops) == 1
+                     and isinstance(c_.ops[0], (ast.Gt, ast.GtE, ast.NotEq))]
+            if not sizes:
+                continue
+            comp = norm(sizes[0].left.args[0]) if sizes[0].left.args else "?"
+            n += 1
+            disj = t.values if isinstance(t, ast.BoolOp) and isinstance(t.op, ast.Or) else []
+            self_loop = any(isinstance(c_, ast.Compare) and len(c_.ops) == 1 and isinstance(c_.ops[0], ast.In)
+                            and comp in norm(c_.left) and comp in norm(c_.comparators[0])
+                            for d_ in disj for c_ in ast.walk(d_))
+            run.ob("C10.cycle", f, t, self_loop,
+                   construct=f"a component counts as a cycle if it has more than one member *or* its "
+                             f"member depends on itself (test: {norm(t, 70)})",
+                   why="a statement that lists its own id in depends_on is a strongly connected "
+                       "component of size one: accepted by the verifier, it makes the interpreter's "
+                       "planner and the lowering recurse without end")
+    if n == 0:
+        raise AnalysisError("verify_no_circular_dependencies: no size test on the components found")
+    raise AnalysisError("verify_no_circular_dependencies is built on compute_sccs; only the self-loop "
+                        "clause is decided for that form")
+
+
 def _cycle(run, P):
     from .util import find, first, has
     f = P.func(f"{MOD}.verify_no_circular_dependencies")
+    if any(isinstance(x, ast.Call) and (dotted(x.func) or "").split(".")[-1] == "compute_sccs"
+           for x in ast.walk(f.node)):
+        return _cycle_by_components(run, P, f)
     stmts_param, errs = f.params[0], f.params[1]
     loop = [n for n in f.node.body if isinstance(n, ast.While) and isinstance(n.test, ast.Name)]
     per_phase = None
